@@ -66,7 +66,8 @@ macro_rules! int_lerp_at {
     }};
 }
 
-// ---- quick: u8/i8 with f32 at k/8, k in [-8,16]; with f64 at the even k (the k/4 grid) ----
+// ---- quick: u8/i8 with f32 at k/8 for every k in [-8,16]; with f64 at k/8 for k in {-8,-4,0,4,8,12,16}
+// (the other even k with f64 are thorough-only, named c12_t_*) ----
 /// K: fns=u8::lerp_unclamped,u8::lerp_unclamped_precise,<&u8>::lerp_unclamped,<&u8>::lerp_precise (Lerp<f32>) | inst=u8, factor f32 = -8/8 | bound=ALL (from,to) pairs, one concrete factor
 /// K: asserts=result = round_half_away((8*from + -8*(to-from))/8) whenever that fits u8 (oracle in i32); fast, precise, by-reference; clamped form = value at clamp01(factor); no panic
 #[kani::proof]
@@ -274,7 +275,7 @@ fn c12_q_u8_lerp_f64_m8of8() { int_lerp_at!(u8, f64, 3, -8) }
 /// K: fns=u8::lerp_unclamped,u8::lerp_unclamped_precise,<&u8>::lerp_unclamped,<&u8>::lerp_precise (Lerp<f64>) | inst=u8, factor f64 = -6/8 | bound=ALL (from,to) pairs, one concrete factor
 /// K: asserts=result = round_half_away((8*from + -6*(to-from))/8) whenever that fits u8 (oracle in i32); fast, precise, by-reference; clamped form = value at clamp01(factor); no panic
 #[kani::proof]
-fn c12_q_u8_lerp_f64_m6of8() { int_lerp_at!(u8, f64, 3, -6) }
+fn c12_t_u8_lerp_f64_m6of8() { int_lerp_at!(u8, f64, 3, -6) }
 /// K: fns=u8::lerp_unclamped,u8::lerp_unclamped_precise,<&u8>::lerp_unclamped,<&u8>::lerp_precise (Lerp<f64>) | inst=u8, factor f64 = -4/8 | bound=ALL (from,to) pairs, one concrete factor
 /// K: asserts=result = round_half_away((8*from + -4*(to-from))/8) whenever that fits u8 (oracle in i32); fast, precise, by-reference; clamped form = value at clamp01(factor); no panic
 #[kani::proof]
@@ -282,7 +283,7 @@ fn c12_q_u8_lerp_f64_m4of8() { int_lerp_at!(u8, f64, 3, -4) }
 /// K: fns=u8::lerp_unclamped,u8::lerp_unclamped_precise,<&u8>::lerp_unclamped,<&u8>::lerp_precise (Lerp<f64>) | inst=u8, factor f64 = -2/8 | bound=ALL (from,to) pairs, one concrete factor
 /// K: asserts=result = round_half_away((8*from + -2*(to-from))/8) whenever that fits u8 (oracle in i32); fast, precise, by-reference; clamped form = value at clamp01(factor); no panic
 #[kani::proof]
-fn c12_q_u8_lerp_f64_m2of8() { int_lerp_at!(u8, f64, 3, -2) }
+fn c12_t_u8_lerp_f64_m2of8() { int_lerp_at!(u8, f64, 3, -2) }
 /// K: fns=u8::lerp_unclamped,u8::lerp_unclamped_precise,<&u8>::lerp_unclamped,<&u8>::lerp_precise (Lerp<f64>) | inst=u8, factor f64 = 0/8 | bound=ALL (from,to) pairs, one concrete factor
 /// K: asserts=result = round_half_away((8*from + 0*(to-from))/8) whenever that fits u8 (oracle in i32); fast, precise, by-reference; clamped form = value at clamp01(factor); no panic
 #[kani::proof]
@@ -290,7 +291,7 @@ fn c12_q_u8_lerp_f64_0of8() { int_lerp_at!(u8, f64, 3, 0) }
 /// K: fns=u8::lerp_unclamped,u8::lerp_unclamped_precise,<&u8>::lerp_unclamped,<&u8>::lerp_precise (Lerp<f64>) | inst=u8, factor f64 = 2/8 | bound=ALL (from,to) pairs, one concrete factor
 /// K: asserts=result = round_half_away((8*from + 2*(to-from))/8) whenever that fits u8 (oracle in i32); fast, precise, by-reference; clamped form = value at clamp01(factor); no panic
 #[kani::proof]
-fn c12_q_u8_lerp_f64_2of8() { int_lerp_at!(u8, f64, 3, 2) }
+fn c12_t_u8_lerp_f64_2of8() { int_lerp_at!(u8, f64, 3, 2) }
 /// K: fns=u8::lerp_unclamped,u8::lerp_unclamped_precise,<&u8>::lerp_unclamped,<&u8>::lerp_precise (Lerp<f64>) | inst=u8, factor f64 = 4/8 | bound=ALL (from,to) pairs, one concrete factor
 /// K: asserts=result = round_half_away((8*from + 4*(to-from))/8) whenever that fits u8 (oracle in i32); fast, precise, by-reference; clamped form = value at clamp01(factor); no panic
 #[kani::proof]
@@ -298,7 +299,7 @@ fn c12_q_u8_lerp_f64_4of8() { int_lerp_at!(u8, f64, 3, 4) }
 /// K: fns=u8::lerp_unclamped,u8::lerp_unclamped_precise,<&u8>::lerp_unclamped,<&u8>::lerp_precise (Lerp<f64>) | inst=u8, factor f64 = 6/8 | bound=ALL (from,to) pairs, one concrete factor
 /// K: asserts=result = round_half_away((8*from + 6*(to-from))/8) whenever that fits u8 (oracle in i32); fast, precise, by-reference; clamped form = value at clamp01(factor); no panic
 #[kani::proof]
-fn c12_q_u8_lerp_f64_6of8() { int_lerp_at!(u8, f64, 3, 6) }
+fn c12_t_u8_lerp_f64_6of8() { int_lerp_at!(u8, f64, 3, 6) }
 /// K: fns=u8::lerp_unclamped,u8::lerp_unclamped_precise,<&u8>::lerp_unclamped,<&u8>::lerp_precise (Lerp<f64>) | inst=u8, factor f64 = 8/8 | bound=ALL (from,to) pairs, one concrete factor
 /// K: asserts=result = round_half_away((8*from + 8*(to-from))/8) whenever that fits u8 (oracle in i32); fast, precise, by-reference; clamped form = value at clamp01(factor); no panic
 #[kani::proof]
@@ -306,7 +307,7 @@ fn c12_q_u8_lerp_f64_8of8() { int_lerp_at!(u8, f64, 3, 8) }
 /// K: fns=u8::lerp_unclamped,u8::lerp_unclamped_precise,<&u8>::lerp_unclamped,<&u8>::lerp_precise (Lerp<f64>) | inst=u8, factor f64 = 10/8 | bound=ALL (from,to) pairs, one concrete factor
 /// K: asserts=result = round_half_away((8*from + 10*(to-from))/8) whenever that fits u8 (oracle in i32); fast, precise, by-reference; clamped form = value at clamp01(factor); no panic
 #[kani::proof]
-fn c12_q_u8_lerp_f64_10of8() { int_lerp_at!(u8, f64, 3, 10) }
+fn c12_t_u8_lerp_f64_10of8() { int_lerp_at!(u8, f64, 3, 10) }
 /// K: fns=u8::lerp_unclamped,u8::lerp_unclamped_precise,<&u8>::lerp_unclamped,<&u8>::lerp_precise (Lerp<f64>) | inst=u8, factor f64 = 12/8 | bound=ALL (from,to) pairs, one concrete factor
 /// K: asserts=result = round_half_away((8*from + 12*(to-from))/8) whenever that fits u8 (oracle in i32); fast, precise, by-reference; clamped form = value at clamp01(factor); no panic
 #[kani::proof]
@@ -314,7 +315,7 @@ fn c12_q_u8_lerp_f64_12of8() { int_lerp_at!(u8, f64, 3, 12) }
 /// K: fns=u8::lerp_unclamped,u8::lerp_unclamped_precise,<&u8>::lerp_unclamped,<&u8>::lerp_precise (Lerp<f64>) | inst=u8, factor f64 = 14/8 | bound=ALL (from,to) pairs, one concrete factor
 /// K: asserts=result = round_half_away((8*from + 14*(to-from))/8) whenever that fits u8 (oracle in i32); fast, precise, by-reference; clamped form = value at clamp01(factor); no panic
 #[kani::proof]
-fn c12_q_u8_lerp_f64_14of8() { int_lerp_at!(u8, f64, 3, 14) }
+fn c12_t_u8_lerp_f64_14of8() { int_lerp_at!(u8, f64, 3, 14) }
 /// K: fns=u8::lerp_unclamped,u8::lerp_unclamped_precise,<&u8>::lerp_unclamped,<&u8>::lerp_precise (Lerp<f64>) | inst=u8, factor f64 = 16/8 | bound=ALL (from,to) pairs, one concrete factor
 /// K: asserts=result = round_half_away((8*from + 16*(to-from))/8) whenever that fits u8 (oracle in i32); fast, precise, by-reference; clamped form = value at clamp01(factor); no panic
 #[kani::proof]
@@ -326,7 +327,7 @@ fn c12_q_i8_lerp_f64_m8of8() { int_lerp_at!(i8, f64, 3, -8) }
 /// K: fns=i8::lerp_unclamped,i8::lerp_unclamped_precise,<&i8>::lerp_unclamped,<&i8>::lerp_precise (Lerp<f64>) | inst=i8, factor f64 = -6/8 | bound=ALL (from,to) pairs, one concrete factor
 /// K: asserts=result = round_half_away((8*from + -6*(to-from))/8) whenever that fits i8 (oracle in i32); fast, precise, by-reference; clamped form = value at clamp01(factor); no panic
 #[kani::proof]
-fn c12_q_i8_lerp_f64_m6of8() { int_lerp_at!(i8, f64, 3, -6) }
+fn c12_t_i8_lerp_f64_m6of8() { int_lerp_at!(i8, f64, 3, -6) }
 /// K: fns=i8::lerp_unclamped,i8::lerp_unclamped_precise,<&i8>::lerp_unclamped,<&i8>::lerp_precise (Lerp<f64>) | inst=i8, factor f64 = -4/8 | bound=ALL (from,to) pairs, one concrete factor
 /// K: asserts=result = round_half_away((8*from + -4*(to-from))/8) whenever that fits i8 (oracle in i32); fast, precise, by-reference; clamped form = value at clamp01(factor); no panic
 #[kani::proof]
@@ -334,7 +335,7 @@ fn c12_q_i8_lerp_f64_m4of8() { int_lerp_at!(i8, f64, 3, -4) }
 /// K: fns=i8::lerp_unclamped,i8::lerp_unclamped_precise,<&i8>::lerp_unclamped,<&i8>::lerp_precise (Lerp<f64>) | inst=i8, factor f64 = -2/8 | bound=ALL (from,to) pairs, one concrete factor
 /// K: asserts=result = round_half_away((8*from + -2*(to-from))/8) whenever that fits i8 (oracle in i32); fast, precise, by-reference; clamped form = value at clamp01(factor); no panic
 #[kani::proof]
-fn c12_q_i8_lerp_f64_m2of8() { int_lerp_at!(i8, f64, 3, -2) }
+fn c12_t_i8_lerp_f64_m2of8() { int_lerp_at!(i8, f64, 3, -2) }
 /// K: fns=i8::lerp_unclamped,i8::lerp_unclamped_precise,<&i8>::lerp_unclamped,<&i8>::lerp_precise (Lerp<f64>) | inst=i8, factor f64 = 0/8 | bound=ALL (from,to) pairs, one concrete factor
 /// K: asserts=result = round_half_away((8*from + 0*(to-from))/8) whenever that fits i8 (oracle in i32); fast, precise, by-reference; clamped form = value at clamp01(factor); no panic
 #[kani::proof]
@@ -342,7 +343,7 @@ fn c12_q_i8_lerp_f64_0of8() { int_lerp_at!(i8, f64, 3, 0) }
 /// K: fns=i8::lerp_unclamped,i8::lerp_unclamped_precise,<&i8>::lerp_unclamped,<&i8>::lerp_precise (Lerp<f64>) | inst=i8, factor f64 = 2/8 | bound=ALL (from,to) pairs, one concrete factor
 /// K: asserts=result = round_half_away((8*from + 2*(to-from))/8) whenever that fits i8 (oracle in i32); fast, precise, by-reference; clamped form = value at clamp01(factor); no panic
 #[kani::proof]
-fn c12_q_i8_lerp_f64_2of8() { int_lerp_at!(i8, f64, 3, 2) }
+fn c12_t_i8_lerp_f64_2of8() { int_lerp_at!(i8, f64, 3, 2) }
 /// K: fns=i8::lerp_unclamped,i8::lerp_unclamped_precise,<&i8>::lerp_unclamped,<&i8>::lerp_precise (Lerp<f64>) | inst=i8, factor f64 = 4/8 | bound=ALL (from,to) pairs, one concrete factor
 /// K: asserts=result = round_half_away((8*from + 4*(to-from))/8) whenever that fits i8 (oracle in i32); fast, precise, by-reference; clamped form = value at clamp01(factor); no panic
 #[kani::proof]
@@ -350,7 +351,7 @@ fn c12_q_i8_lerp_f64_4of8() { int_lerp_at!(i8, f64, 3, 4) }
 /// K: fns=i8::lerp_unclamped,i8::lerp_unclamped_precise,<&i8>::lerp_unclamped,<&i8>::lerp_precise (Lerp<f64>) | inst=i8, factor f64 = 6/8 | bound=ALL (from,to) pairs, one concrete factor
 /// K: asserts=result = round_half_away((8*from + 6*(to-from))/8) whenever that fits i8 (oracle in i32); fast, precise, by-reference; clamped form = value at clamp01(factor); no panic
 #[kani::proof]
-fn c12_q_i8_lerp_f64_6of8() { int_lerp_at!(i8, f64, 3, 6) }
+fn c12_t_i8_lerp_f64_6of8() { int_lerp_at!(i8, f64, 3, 6) }
 /// K: fns=i8::lerp_unclamped,i8::lerp_unclamped_precise,<&i8>::lerp_unclamped,<&i8>::lerp_precise (Lerp<f64>) | inst=i8, factor f64 = 8/8 | bound=ALL (from,to) pairs, one concrete factor
 /// K: asserts=result = round_half_away((8*from + 8*(to-from))/8) whenever that fits i8 (oracle in i32); fast, precise, by-reference; clamped form = value at clamp01(factor); no panic
 #[kani::proof]
@@ -358,7 +359,7 @@ fn c12_q_i8_lerp_f64_8of8() { int_lerp_at!(i8, f64, 3, 8) }
 /// K: fns=i8::lerp_unclamped,i8::lerp_unclamped_precise,<&i8>::lerp_unclamped,<&i8>::lerp_precise (Lerp<f64>) | inst=i8, factor f64 = 10/8 | bound=ALL (from,to) pairs, one concrete factor
 /// K: asserts=result = round_half_away((8*from + 10*(to-from))/8) whenever that fits i8 (oracle in i32); fast, precise, by-reference; clamped form = value at clamp01(factor); no panic
 #[kani::proof]
-fn c12_q_i8_lerp_f64_10of8() { int_lerp_at!(i8, f64, 3, 10) }
+fn c12_t_i8_lerp_f64_10of8() { int_lerp_at!(i8, f64, 3, 10) }
 /// K: fns=i8::lerp_unclamped,i8::lerp_unclamped_precise,<&i8>::lerp_unclamped,<&i8>::lerp_precise (Lerp<f64>) | inst=i8, factor f64 = 12/8 | bound=ALL (from,to) pairs, one concrete factor
 /// K: asserts=result = round_half_away((8*from + 12*(to-from))/8) whenever that fits i8 (oracle in i32); fast, precise, by-reference; clamped form = value at clamp01(factor); no panic
 #[kani::proof]
@@ -366,7 +367,7 @@ fn c12_q_i8_lerp_f64_12of8() { int_lerp_at!(i8, f64, 3, 12) }
 /// K: fns=i8::lerp_unclamped,i8::lerp_unclamped_precise,<&i8>::lerp_unclamped,<&i8>::lerp_precise (Lerp<f64>) | inst=i8, factor f64 = 14/8 | bound=ALL (from,to) pairs, one concrete factor
 /// K: asserts=result = round_half_away((8*from + 14*(to-from))/8) whenever that fits i8 (oracle in i32); fast, precise, by-reference; clamped form = value at clamp01(factor); no panic
 #[kani::proof]
-fn c12_q_i8_lerp_f64_14of8() { int_lerp_at!(i8, f64, 3, 14) }
+fn c12_t_i8_lerp_f64_14of8() { int_lerp_at!(i8, f64, 3, 14) }
 /// K: fns=i8::lerp_unclamped,i8::lerp_unclamped_precise,<&i8>::lerp_unclamped,<&i8>::lerp_precise (Lerp<f64>) | inst=i8, factor f64 = 16/8 | bound=ALL (from,to) pairs, one concrete factor
 /// K: asserts=result = round_half_away((8*from + 16*(to-from))/8) whenever that fits i8 (oracle in i32); fast, precise, by-reference; clamped form = value at clamp01(factor); no panic
 #[kani::proof]
